@@ -198,6 +198,10 @@ func (store *fileStore) Refresh() (err error) {
 	}
 	verifPoint("open>", nil, store.targetSeqNumsFname)
 
+	if err := store.dropIncompleteIndexLine(); err != nil {
+		return err
+	}
+
 	if !creationTimePopulated {
 		if err := store.setSession(); err != nil {
 			return err
@@ -210,6 +214,42 @@ func (store *fileStore) Refresh() (err error) {
 
 	if err := store.SetNextTargetMsgSeqNum(store.NextTargetMsgSeqNum()); err != nil {
 		return errors.Wrap(err, "set next target")
+	}
+	return nil
+}
+
+// dropIncompleteIndexLine truncates the header file after its last newline. Every index line is written
+// with a trailing newline, so a tail without one is the rest of a save that was interrupted; left in place
+// it would be glued to the next index line and make that line, and every later read, wrong.
+func (store *fileStore) dropIncompleteIndexLine() error {
+	store.fileMu.Lock()
+	defer store.fileMu.Unlock()
+
+	size, err := store.headerFile.Seek(0, io.SeekEnd)
+	if err != nil {
+		return fmt.Errorf("unable to seek to end of file: %s: %s", store.headerFname, err.Error())
+	}
+	keep := size
+	last := make([]byte, 1)
+	for keep > 0 {
+		if _, err := store.headerFile.ReadAt(last, keep-1); err != nil {
+			return fmt.Errorf("unable to read from file: %s: %s", store.headerFname, err.Error())
+		}
+		if last[0] == '\n' {
+			break
+		}
+		keep--
+	}
+	if keep == size {
+		return nil
+	}
+	if err := store.headerFile.Truncate(keep); err != nil {
+		return fmt.Errorf("unable to truncate file: %s: %s", store.headerFname, err.Error())
+	}
+	if store.fileSync {
+		if err := store.headerFile.Sync(); err != nil {
+			return fmt.Errorf("unable to flush file: %s: %s", store.headerFname, err.Error())
+		}
 	}
 	return nil
 }
